@@ -378,6 +378,7 @@ type (
 
 func (p *schemaValidatorsPool) BorrowValidator() *SchemaValidator {
 	s := p.Get().(*SchemaValidator)
+	verifBorrow("schemaValidatorsPool", s)
 
 	p.mx.Lock()
 	defer p.mx.Unlock()
@@ -396,6 +397,7 @@ func (p *schemaValidatorsPool) BorrowValidator() *SchemaValidator {
 }
 
 func (p *schemaValidatorsPool) RedeemValidator(s *SchemaValidator) {
+	verifRedeemed("schemaValidatorsPool", s)
 	// NOTE: s might be nil. In that case, Put is a noop.
 	p.mx.Lock()
 	defer p.mx.Unlock()
@@ -413,6 +415,7 @@ func (p *schemaValidatorsPool) RedeemValidator(s *SchemaValidator) {
 
 func (p *objectValidatorsPool) BorrowValidator() *objectValidator {
 	s := p.Get().(*objectValidator)
+	verifBorrow("objectValidatorsPool", s)
 
 	p.mx.Lock()
 	defer p.mx.Unlock()
@@ -431,6 +434,7 @@ func (p *objectValidatorsPool) BorrowValidator() *objectValidator {
 }
 
 func (p *objectValidatorsPool) RedeemValidator(s *objectValidator) {
+	verifRedeemed("objectValidatorsPool", s)
 	p.mx.Lock()
 	defer p.mx.Unlock()
 	x, ok := p.debugMap[s]
@@ -447,6 +451,7 @@ func (p *objectValidatorsPool) RedeemValidator(s *objectValidator) {
 
 func (p *sliceValidatorsPool) BorrowValidator() *schemaSliceValidator {
 	s := p.Get().(*schemaSliceValidator)
+	verifBorrow("sliceValidatorsPool", s)
 
 	p.mx.Lock()
 	defer p.mx.Unlock()
@@ -465,6 +470,7 @@ func (p *sliceValidatorsPool) BorrowValidator() *schemaSliceValidator {
 }
 
 func (p *sliceValidatorsPool) RedeemValidator(s *schemaSliceValidator) {
+	verifRedeemed("sliceValidatorsPool", s)
 	p.mx.Lock()
 	defer p.mx.Unlock()
 	x, ok := p.debugMap[s]
@@ -481,6 +487,7 @@ func (p *sliceValidatorsPool) RedeemValidator(s *schemaSliceValidator) {
 
 func (p *itemsValidatorsPool) BorrowValidator() *itemsValidator {
 	s := p.Get().(*itemsValidator)
+	verifBorrow("itemsValidatorsPool", s)
 
 	p.mx.Lock()
 	defer p.mx.Unlock()
@@ -499,6 +506,7 @@ func (p *itemsValidatorsPool) BorrowValidator() *itemsValidator {
 }
 
 func (p *itemsValidatorsPool) RedeemValidator(s *itemsValidator) {
+	verifRedeemed("itemsValidatorsPool", s)
 	p.mx.Lock()
 	defer p.mx.Unlock()
 	x, ok := p.debugMap[s]
@@ -515,6 +523,7 @@ func (p *itemsValidatorsPool) RedeemValidator(s *itemsValidator) {
 
 func (p *basicCommonValidatorsPool) BorrowValidator() *basicCommonValidator {
 	s := p.Get().(*basicCommonValidator)
+	verifBorrow("basicCommonValidatorsPool", s)
 
 	p.mx.Lock()
 	defer p.mx.Unlock()
@@ -533,6 +542,7 @@ func (p *basicCommonValidatorsPool) BorrowValidator() *basicCommonValidator {
 }
 
 func (p *basicCommonValidatorsPool) RedeemValidator(s *basicCommonValidator) {
+	verifRedeemed("basicCommonValidatorsPool", s)
 	p.mx.Lock()
 	defer p.mx.Unlock()
 	x, ok := p.debugMap[s]
@@ -549,6 +559,7 @@ func (p *basicCommonValidatorsPool) RedeemValidator(s *basicCommonValidator) {
 
 func (p *headerValidatorsPool) BorrowValidator() *HeaderValidator {
 	s := p.Get().(*HeaderValidator)
+	verifBorrow("headerValidatorsPool", s)
 
 	p.mx.Lock()
 	defer p.mx.Unlock()
@@ -567,6 +578,7 @@ func (p *headerValidatorsPool) BorrowValidator() *HeaderValidator {
 }
 
 func (p *headerValidatorsPool) RedeemValidator(s *HeaderValidator) {
+	verifRedeemed("headerValidatorsPool", s)
 	p.mx.Lock()
 	defer p.mx.Unlock()
 	x, ok := p.debugMap[s]
@@ -583,6 +595,7 @@ func (p *headerValidatorsPool) RedeemValidator(s *HeaderValidator) {
 
 func (p *paramValidatorsPool) BorrowValidator() *ParamValidator {
 	s := p.Get().(*ParamValidator)
+	verifBorrow("paramValidatorsPool", s)
 
 	p.mx.Lock()
 	defer p.mx.Unlock()
@@ -601,6 +614,7 @@ func (p *paramValidatorsPool) BorrowValidator() *ParamValidator {
 }
 
 func (p *paramValidatorsPool) RedeemValidator(s *ParamValidator) {
+	verifRedeemed("paramValidatorsPool", s)
 	p.mx.Lock()
 	defer p.mx.Unlock()
 	x, ok := p.debugMap[s]
@@ -617,6 +631,7 @@ func (p *paramValidatorsPool) RedeemValidator(s *ParamValidator) {
 
 func (p *basicSliceValidatorsPool) BorrowValidator() *basicSliceValidator {
 	s := p.Get().(*basicSliceValidator)
+	verifBorrow("basicSliceValidatorsPool", s)
 
 	p.mx.Lock()
 	defer p.mx.Unlock()
@@ -635,6 +650,7 @@ func (p *basicSliceValidatorsPool) BorrowValidator() *basicSliceValidator {
 }
 
 func (p *basicSliceValidatorsPool) RedeemValidator(s *basicSliceValidator) {
+	verifRedeemed("basicSliceValidatorsPool", s)
 	p.mx.Lock()
 	defer p.mx.Unlock()
 	x, ok := p.debugMap[s]
@@ -651,6 +667,7 @@ func (p *basicSliceValidatorsPool) RedeemValidator(s *basicSliceValidator) {
 
 func (p *numberValidatorsPool) BorrowValidator() *numberValidator {
 	s := p.Get().(*numberValidator)
+	verifBorrow("numberValidatorsPool", s)
 
 	p.mx.Lock()
 	defer p.mx.Unlock()
@@ -669,6 +686,7 @@ func (p *numberValidatorsPool) BorrowValidator() *numberValidator {
 }
 
 func (p *numberValidatorsPool) RedeemValidator(s *numberValidator) {
+	verifRedeemed("numberValidatorsPool", s)
 	p.mx.Lock()
 	defer p.mx.Unlock()
 	x, ok := p.debugMap[s]
@@ -685,6 +703,7 @@ func (p *numberValidatorsPool) RedeemValidator(s *numberValidator) {
 
 func (p *stringValidatorsPool) BorrowValidator() *stringValidator {
 	s := p.Get().(*stringValidator)
+	verifBorrow("stringValidatorsPool", s)
 
 	p.mx.Lock()
 	defer p.mx.Unlock()
@@ -703,6 +722,7 @@ func (p *stringValidatorsPool) BorrowValidator() *stringValidator {
 }
 
 func (p *stringValidatorsPool) RedeemValidator(s *stringValidator) {
+	verifRedeemed("stringValidatorsPool", s)
 	p.mx.Lock()
 	defer p.mx.Unlock()
 	x, ok := p.debugMap[s]
@@ -719,6 +739,7 @@ func (p *stringValidatorsPool) RedeemValidator(s *stringValidator) {
 
 func (p *schemaPropsValidatorsPool) BorrowValidator() *schemaPropsValidator {
 	s := p.Get().(*schemaPropsValidator)
+	verifBorrow("schemaPropsValidatorsPool", s)
 
 	p.mx.Lock()
 	defer p.mx.Unlock()
@@ -737,6 +758,7 @@ func (p *schemaPropsValidatorsPool) BorrowValidator() *schemaPropsValidator {
 }
 
 func (p *schemaPropsValidatorsPool) RedeemValidator(s *schemaPropsValidator) {
+	verifRedeemed("schemaPropsValidatorsPool", s)
 	p.mx.Lock()
 	defer p.mx.Unlock()
 	x, ok := p.debugMap[s]
@@ -753,6 +775,7 @@ func (p *schemaPropsValidatorsPool) RedeemValidator(s *schemaPropsValidator) {
 
 func (p *formatValidatorsPool) BorrowValidator() *formatValidator {
 	s := p.Get().(*formatValidator)
+	verifBorrow("formatValidatorsPool", s)
 
 	p.mx.Lock()
 	defer p.mx.Unlock()
@@ -771,6 +794,7 @@ func (p *formatValidatorsPool) BorrowValidator() *formatValidator {
 }
 
 func (p *formatValidatorsPool) RedeemValidator(s *formatValidator) {
+	verifRedeemed("formatValidatorsPool", s)
 	p.mx.Lock()
 	defer p.mx.Unlock()
 	x, ok := p.debugMap[s]
@@ -787,6 +811,7 @@ func (p *formatValidatorsPool) RedeemValidator(s *formatValidator) {
 
 func (p *typeValidatorsPool) BorrowValidator() *typeValidator {
 	s := p.Get().(*typeValidator)
+	verifBorrow("typeValidatorsPool", s)
 
 	p.mx.Lock()
 	defer p.mx.Unlock()
@@ -805,6 +830,7 @@ func (p *typeValidatorsPool) BorrowValidator() *typeValidator {
 }
 
 func (p *typeValidatorsPool) RedeemValidator(s *typeValidator) {
+	verifRedeemed("typeValidatorsPool", s)
 	p.mx.Lock()
 	defer p.mx.Unlock()
 	x, ok := p.debugMap[s]
@@ -821,6 +847,7 @@ func (p *typeValidatorsPool) RedeemValidator(s *typeValidator) {
 
 func (p *schemasPool) BorrowSchema() *spec.Schema {
 	s := p.Get().(*spec.Schema)
+	verifBorrow("schemasPool", s)
 
 	p.mx.Lock()
 	defer p.mx.Unlock()
@@ -839,6 +866,7 @@ func (p *schemasPool) BorrowSchema() *spec.Schema {
 }
 
 func (p *schemasPool) RedeemSchema(s *spec.Schema) {
+	verifRedeemed("schemasPool", s)
 	p.mx.Lock()
 	defer p.mx.Unlock()
 	x, ok := p.debugMap[s]
@@ -855,6 +883,7 @@ func (p *schemasPool) RedeemSchema(s *spec.Schema) {
 
 func (p *resultsPool) BorrowResult() *Result {
 	s := p.Get().(*Result).cleared()
+	verifBorrow("resultsPool", s)
 
 	p.mx.Lock()
 	defer p.mx.Unlock()
@@ -879,6 +908,7 @@ func (p *resultsPool) RedeemResult(s *Result) {
 		}
 		return
 	}
+	verifRedeemed("resultsPool", s)
 	p.mx.Lock()
 	defer p.mx.Unlock()
 	x, ok := p.debugMap[s]
